@@ -228,6 +228,7 @@ fn run_history(ops: &[Op], mut on_query: impl FnMut(&Live, &Request, &Obs, usize
         if let Op::Optimize = o { optimized = true }
         if let Op::Query(u, s, t) = o {
             let Ok(req) = Request::new(u, s, t) else { continue };
+            register_request(&req, u, s, t);
             if !u.is_ascii() || (!req.is_http && !req.is_https) { continue }
             let got = observe(&l.b, &rs, &req);
             let f = fresh(&l.accepted, &l.tags);
